@@ -94,18 +94,22 @@ impl PrettyPrint {
         }
 
         // HACK: Use the text line so we have the same tab spacing
+        // (columns count characters, so the line is walked by characters, not bytes)
+        let offset = start.saturating_sub(first_non_ws);
         let mut base: String = text
-            .get(first_non_ws..)
-            .unwrap_or_default()
             .chars()
+            .skip(first_non_ws)
+            .take(offset)
             .map(|c| if c.is_whitespace() { c } else { ' ' })
             .collect();
+        for _ in base.chars().count()..offset {
+            base.push(' ');
+        }
 
         // Arrows pointing the the relevant position
         let end = end + 1;
         let arrows = "^".repeat(end.saturating_sub(start));
-        let offset = start.saturating_sub(first_non_ws);
-        base.replace_range(offset.., &arrows);
+        base.push_str(&arrows);
 
         let aligned = text.trim();
         format!("{spc} |\n {line} | {aligned}\n{spc} | {base}\n")
